@@ -2,8 +2,8 @@
 # usage: mutant_confirm.sh <seeded dir>    — confirms a seeded change in the scratch worktree /tmp/mv/repo (never in /repo):
 # the demo passes on the clean tree; with the patch the 443 baseline tests pass and the demo fails.  Writes <dir>/confirm.txt
 set -u
-MUT=$1; WT=/tmp/mv/repo
-export CARGO_NET_OFFLINE=true CARGO_TARGET_DIR=/tmp/mv/repo-target
+MUT=$1; WT=${WT:-/tmp/mv/repo}
+export CARGO_NET_OFFLINE=true CARGO_TARGET_DIR=${WT}-target
 [ -d $WT ] || git -C /repo worktree add $WT HEAD
 OUT=$MUT/confirm.txt; : > $OUT
 cd $WT && git checkout -q -- . && git checkout -q --detach $(git -C /repo rev-parse HEAD) && rm -rf tests
